@@ -48,7 +48,7 @@ func runC03(c *eng.Ctx, tier string) {
 	includeOnly(c, "R-C03-6", func(sc *eng.Ctx) { runC04(sc, "quick") }, "R-C04-3")
 	includeOnly(c, "R-C03-6", func(sc *eng.Ctx) { runC14(sc, "quick") }, "R-C14-1")
 	// ... and an acknowledged put stored what it acknowledged (C02's numbering rules)
-	includeOnly(c, "R-C03-6", func(sc *eng.Ctx) { runC02(sc, "quick") }, "R-C02-2", "R-C02-3")
+	includeOnly(c, "R-C03-6", func(sc *eng.Ctx) { runC02(sc, "quick") }, "R-C02-2", "R-C02-3", "R-C02-9")
 }
 
 // R-C03-1
